@@ -437,5 +437,8 @@ def run(ctx: Ctx) -> None:
     ctx.attempt(rule_r8, ctx)
     ctx.attempt(rule_r5_r6, ctx)
     ctx.attempt(rule_r3, ctx)
+    from . import c17text
+
+    c17text.run(ctx)
     ctx.assume("a definition is evaluated once (result cached, C09.R4), so each @print is met once")
     ctx.assume("errors raised while a statement is still being evaluated are stamped with the parser's current line, which lies within the statement")
